@@ -147,3 +147,906 @@ def c02(tier, rng):
         if n % 4001 == 0:
             res.samples.append({'text': t[:80], 'events': impl[i + 1][:200]})
     return res
+
+
+# ---------------------------------------------------------------------------------------------
+KINDS = [('str', 128), ('buf', 16), ('ring8', 8), ('ring16', 16), ('ring64', 64), ('ring128', 128)]
+
+
+def usig(t):
+    return 'unclassified:' + hashlib.sha1(t.encode('utf8', 'replace')).hexdigest()[:10]
+
+
+def long_inputs():
+    """a few long inputs of each shape, to make a super-linear work blow-up visible"""
+    out = []
+    for n in (2000, 8000):
+        out += ['- a\n' * n, 'k: v\n' * n, 'a' * n + '\n', '"' + 'a ' * n + '"\n', '# c\n' * n, '[' + 'a, ' * n + ']\n',
+                'k: |\n' + '  text\n' * n, ' ' * n + 'a\n', '\n' * n, 'a: b\n' + 'x ' * n + '\n', '? a\n: b\n' * (n // 2),
+                '- ' * (n // 8) + 'a\n', '{' + 'a: b, ' * n + '}\n', "'" + "it''s " * n + "'\n", 'a &x b *x ' * (n // 4) + '\n']
+    return out
+
+
+def bomb(n):
+    s = 'a0: &a0 [x]\n'
+    for i in range(1, n + 1):
+        s += f'a{i}: &a{i} [' + ', '.join([f'*a{i-1}'] * 10) + ']\n'
+    return s
+
+
+def count_nodes(dump):
+    return len(dump.split(' ')) if dump else 0
+
+
+WORK_A, WORK_B = 48, 400       # trait-call bound  A·n + B  (n = number of chars)
+
+
+@prop('C01', ["no panic/abort of the implementation is observed directly (catch_unwind per request; a dead process is reported as CRASH)",
+              "the linear work bound is measured on the implementation with a counting Input wrapper (supporting evidence, not a theorem)",
+              "theorems registered for C01 are component theorems (panic-freedom of the parser for all token lists; structural invariant of the scanner functions); the assembly over fetch_next_token is not complete"])
+def c01(tier, rng):
+    res = Result()
+    res.rule = ("C01 input space x {StrInput, BufferedInput, RingInput 8/16/64/128} x {iterator, push, peek/next history, 4 loaders}; "
+                "non-trivial = token stream beyond StreamStart/StreamEnd or an error; distinct by text")
+    res.corr_ops = ['tok (str, buf, ring8)', 'evt', 'psh', 'lod']
+    texts = c01_space(tier, rng) + long_inputs() + [bomb(3), bomb(5)]
+    hr = rng.fork('hist')
+    per = []
+    reqs = []
+    for t in texts:
+        h = hx(t)
+        calls = ''.join(hr.choice('pn') for _ in range(hr.randint(1, 24)))
+        rs = [f'tok {k} {c} {h}' for k, c in KINDS[:3]] + [f'evt {k} {c} 0 {h}' for k, c in KINDS] + \
+             [f'psh buf 1 {h}', f'psh str 0 {h}', f'api {h} {calls}'] + \
+             [f'lod {nk} e {h}' for nk in ('y', 'yo', 'm', 'mo')] + [f'lod y r {h}', f'cnt str {h}', f'cnt buf {h}']
+        per.append((len(reqs), len(rs)))
+        reqs += rs
+    impl = run_impl(reqs)
+    # correspondence on the ops the model implements (not cnt), sampled for the long tail of kinds
+    midx = [i for i, r in enumerate(reqs) if r.split(' ')[0] in ('tok', 'psh', 'lod') or r.startswith('evt str') or r.startswith('evt buf')]
+    if tier == 'quick':
+        midx = [i for i in midx if len(reqs[i]) < 6 * 3000]
+    model = dict(zip(midx, run_model([reqs[i] for i in midx])))
+    worst = 0.0
+    for n, t in enumerate(texts):
+        o, k = per[n]
+        res.evaluations += 1
+        if is_nontrivial_tok(impl[o]):
+            res.nt(t)
+        note_dist(res, impl[o + 3], 'evt')
+        for j in range(k):
+            a = impl[o + j]
+            r = reqs[o + j]
+            op = r.split(' ')[0]
+            if a.startswith('PANIC') or 'CRASH' in a or 'RUNAWAY' in a or a == 'UNANSWERED' or ' PANIC' in a:
+                res.oracle_failures.append({'sig': usig(t), 'what': f'{op}: implementation panicked / aborted / did not end ({a[:40]})',
+                                            'reqs': [r], 'input': repr(t[:200])})
+                continue
+            if op in ('tok', 'evt', 'psh'):
+                tail = split_line(a)[1][0]
+                if tail not in ('DONE', 'ERR'):
+                    res.oracle_failures.append({'sig': usig(t), 'what': f'{op}: stream ends in neither StreamEnd nor an error', 'reqs': [r], 'input': repr(t[:200])})
+            if op == 'cnt':
+                ticks, nchar, _ = (int(x) for x in a.split(' '))
+                worst = max(worst, (ticks - WORK_B) / max(nchar, 1))
+                if ticks > WORK_A * nchar + WORK_B:
+                    res.oracle_failures.append({'sig': usig(t), 'what': f'work {ticks} trait calls for {nchar} chars exceeds {WORK_A}*n+{WORK_B}', 'reqs': [r], 'input': repr(t[:200])})
+            if op == 'lod' and a.startswith('OK'):
+                nodes = count_nodes(a[3:])
+                if nodes > 200 * len(t) + 200:
+                    res.oracle_failures.append({'sig': 'C01:loader-alias-fanout' if '*a' in t and '&a' in t else usig(t),
+                                                'what': f'loader built {nodes} nodes from {len(t)} characters (alias fan-out)', 'reqs': [r], 'input': repr(t[:200])})
+            if (o + j) in model:
+                b = model[o + j]
+                if op == 'lod':
+                    a, b = canon_tree_line(a), canon_tree_line(b)
+                if op == 'psh' and ' ; ERR' in a:
+                    a, b = a.rsplit(' ; ', 1)[1], b.rsplit(' ; ', 1)[-1].lstrip('; ')
+                if a != b and not (a.startswith('PANIC') and b.startswith('PANIC')):
+                    diff(res, r, a, b, op)
+        if n % 4001 == 0:
+            res.samples.append({'text': t[:80], 'tok': impl[o][:160]})
+    res.extra['work_bound'] = {'A': WORK_A, 'B': WORK_B, 'worst_observed_slope': round(worst, 2)}
+    return res
+
+
+def canon_float(tok):
+    """model prints floats as decimal denotations; canonicalise to binary64 bits (correct rounding)"""
+    import struct
+    if not tok.startswith('D:'):
+        return tok
+    body, at, span = tok.partition('@')
+    v = body[2:]
+    if len(v) == 16 and all(c in '0123456789abcdef' for c in v):
+        return tok
+    try:
+        f = float(v)
+    except ValueError:
+        return tok
+    if f != f:
+        bits = 0x7ff8000000000000
+    else:
+        bits = struct.unpack('>Q', struct.pack('>d', f))[0]
+    return f'D:{bits:016x}{at}{span}'
+
+
+def canon_tree_line(line):
+    return ' '.join(canon_float(x) for x in line.split(' '))
+
+
+@prop('C10', ["implementation-vs-implementation comparison across six input back-ends is exact (events, spans, error text and position)",
+              "theorems registered are per-operation equalities between the byte-level StrInput model and the buffered model; the whole-scanner relational theorem is not complete"])
+def c10(tier, rng):
+    res = Result()
+    res.rule = "C01 input space; each text parsed with StrInput, BufferedInput and RingInput<8|16|64|128>; non-trivial as C01"
+    res.corr_ops = ['tok str', 'tok buf 16', 'tok ring8 (model: buffered kind, capacity 8)']
+    texts = c01_space(tier, rng) + long_inputs()[:15]
+    reqs = []
+    for t in texts:
+        h = hx(t)
+        reqs += [f'evt {k} {c} 0 {h}' for k, c in KINDS] + [f'tok {k} {c} {h}' for k, c in KINDS[:3]]
+    impl = run_impl(reqs)
+    W = len(KINDS) + 3
+    midx = [i for i in range(len(reqs)) if i % W >= len(KINDS) and len(reqs[i]) < 6 * 4000]
+    model = dict(zip(midx, run_model([reqs[i] for i in midx])))
+    for n, t in enumerate(texts):
+        o = n * W
+        res.evaluations += 1
+        if is_nontrivial_tok(impl[o + len(KINDS)]):
+            res.nt(t)
+        note_dist(res, impl[o], 'evt')
+        ref = impl[o]
+        for j in range(1, len(KINDS)):
+            if impl[o + j] != ref:
+                res.oracle_failures.append({'sig': usig(t), 'what': f'{KINDS[j][0]} differs from StrInput', 'reqs': [reqs[o], reqs[o + j]],
+                                            'input': repr(t[:200]), 'detail': {'str': ref[:800], KINDS[j][0]: impl[o + j][:800]}})
+                break
+        for j in range(len(KINDS), W):
+            if (o + j) in model and model[o + j] != impl[o + j] and not impl[o + j].startswith('PANIC'):
+                diff(res, reqs[o + j], impl[o + j], model[o + j], 'tok')
+        if n % 4001 == 0:
+            res.samples.append({'text': t[:80], 'events': ref[:160]})
+    return res
+
+
+def span_checks(text, line):
+    """structural span checks of C12 on one evt line; returns a failure description or None"""
+    items, tail = split_line(line)
+    stack = []
+    for it in items:
+        k, sp = parse_item(it)
+        if sp is None:
+            continue
+        (si, sl, sc), (ei, el, ec) = sp
+        if si > ei:
+            return f'span starts after it ends: {it}'
+        f = k.split(':')
+        if stack and f[0] not in ('SQE', 'MPE', 'DE', 'SE'):
+            if si < stack[-1][0]:
+                return f'nested node starts before its parent: {it}'
+        if f[0] in ('SQ', 'MP', 'DS'):
+            stack.append((si, it))
+        elif f[0] in ('SQE', 'MPE', 'DE'):
+            if stack:
+                ps, pit = stack.pop()
+                if ei < ps:
+                    return f'collection ends before it starts: {pit} .. {it}'
+    return None
+
+
+def scalar_span_checks(text, line):
+    """C12 on scanner tokens: a non-empty single-line plain scalar's span is exactly its text; a
+    quoted scalar's span starts at the opening quote and contains the closing quote. (Checked on
+    tokens: the events of *omitted* nodes are synthesized `~` scalars that borrow another token's
+    span and are not scalars of the input.)"""
+    items, tail = split_line(line)
+    for it in items:
+        k, sp = parse_item(it)
+        if sp is None:
+            continue
+        f = k.split(':')
+        if f[0] != 'SC':
+            continue
+        (si, sl, sc), (ei, el, ec) = sp
+        val = unhx(f[2]) if len(f) > 2 else ''
+        if f[1] == 'P' and val and sl == el:
+            if text[si:ei] != val:
+                return f'plain scalar span {text[si:ei]!r} is not its text {val!r}'
+        if f[1] in ('S', 'D'):
+            q = "'" if f[1] == 'S' else '"'
+            if not (si < len(text) and text[si] == q and q in text[si + 1:ei]):
+                return f'quoted scalar span does not run from the opening quote over the closing quote: {text[si:ei]!r}'
+    return None
+
+
+@prop('C12', ["lineCol (Spec/Positions.lean) is evaluated by the Lean driver on every mark the implementation reports",
+              "positions at the end of the input are exempt, as the property states",
+              "theorems registered: per-primitive preservation of the position invariant; the whole-scanner invariant is not complete"])
+def c12(tier, rng):
+    res = Result()
+    res.rule = "C01 input space (incl. CRLF, CR, NUL, astral); every token span, event span, error and final mark of both back-ends; marked nodes; non-trivial as C01"
+    res.corr_ops = ['tok str', 'tok buf', 'fld m (loader model on the real events) vs lod m']
+    texts = c01_space(tier, rng)
+    reqs = []
+    for t in texts:
+        h = hx(t)
+        reqs += [f'tok str 128 {h}', f'tok buf 16 {h}', f'evt str 128 0 {h}', f'evt buf 16 0 {h}', f'erd {h}', f'lod m e {h}', f'lod mo e {h}']
+    impl = run_impl(reqs)
+    W = 7
+    oreqs, mreqs = [], []
+    for n, t in enumerate(texts):
+        o = n * W
+        h = hx(t)
+        oreqs += [f'pos {h} {impl[o + j]}' for j in (0, 1, 2, 3)]
+        mreqs += [reqs[o], reqs[o + 1], f'fld m e {impl[o + 3]}']
+    orac = run_model(oreqs)
+    model = run_model(mreqs)
+    for n, t in enumerate(texts):
+        o = n * W
+        res.evaluations += 1
+        if is_nontrivial_tok(impl[o]):
+            res.nt(t)
+        note_dist(res, impl[o + 2], 'evt')
+        nul = t.find('\0')
+        for j in (0, 1, 2, 3):
+            v = orac[4 * n + j]
+            if v != 'ok' and 'PANIC' not in impl[o + j]:
+                sig = usig(t)
+                if nul >= 0 and nul_forced_newline(t, impl[o + j], nul):
+                    sig = 'C12:nul-forced-newline'
+                res.oracle_failures.append({'sig': sig, 'what': f'a reported position is not the true position ({v})',
+                                            'reqs': [reqs[o + j]], 'input': repr(t[:200]), 'detail': impl[o + j][:1200]})
+        for j in (0, 1, 2, 3):
+            if 'PANIC' in impl[o + j]:
+                continue
+            why = span_checks(t, impl[o + j]) if j >= 2 else scalar_span_checks(t, impl[o + j])
+            if why:
+                res.oracle_failures.append({'sig': usig(t), 'what': why, 'reqs': [reqs[o + j]], 'input': repr(t[:200])})
+        e = impl[o + 4]
+        if e != 'none' and not e.startswith('PANIC'):
+            d, m, info = e.split(' ')
+            mi, ml, mc = (int(x) for x in m.split(','))
+            want = f'{unhx(info)} at byte {mi} line {ml} column {mc + 1}'
+            if unhx(d) != want:
+                res.oracle_failures.append({'sig': usig(t), 'what': f'error Display {unhx(d)!r} is not {want!r}', 'reqs': [reqs[o + 4]], 'input': repr(t[:200])})
+        # correspondence
+        for j, mj in ((0, 0), (1, 1)):
+            if model[3 * n + mj] != impl[o + j] and not impl[o + j].startswith('PANIC'):
+                diff(res, reqs[o + j], impl[o + j], model[3 * n + mj], 'tok spans')
+        if impl[o + 5].startswith('OK') and ' ; DONE' in impl[o + 3]:
+            a, b = canon_tree_line(impl[o + 5]), canon_tree_line(model[3 * n + 2])
+            if a != b:
+                diff(res, mreqs[3 * n + 2], a, b, 'marked node spans (loader model on the real events)')
+            if strip_spans(impl[o + 6]) != strip_spans(impl[o + 5]) or impl[o + 6] != impl[o + 5]:
+                res.oracle_failures.append({'sig': usig(t), 'what': 'MarkedYaml and MarkedYamlOwned differ', 'reqs': [reqs[o + 5], reqs[o + 6]], 'input': repr(t[:200])})
+        if n % 4001 == 0:
+            res.samples.append({'text': t[:80], 'events': impl[o + 2][:200]})
+    return res
+
+
+def strip_spans(line):
+    return ' '.join(x.partition('@')[0] for x in line.split(' '))
+
+
+def nul_forced_newline(t, line, nul):
+    """narrow signature of D13: the only untrue marks sit at the index of the first NUL and report
+    (true line + 1, column 0) — the forced new line of fetch_stream_end"""
+    items, tail = split_line(line)
+    marks = []
+    for it in items:
+        k, sp = parse_item(it)
+        if sp:
+            marks += [sp[0], sp[1]]
+    if tail[0] in ('ERR', 'DONE') and len(tail) > 1:
+        try:
+            marks.append(tuple(int(x) for x in tail[1].split(',')))
+        except ValueError:
+            pass
+    ok = False
+    for (i, l, c) in marks:
+        tl, tc = true_linecol(t, i)
+        if i >= len(t) or (l, c) == (tl, tc):
+            continue
+        if i == nul and c == 0 and l == tl + 1:
+            ok = True
+            continue
+        return False
+    return ok
+
+
+def true_linecol(t, idx):
+    l, c = 1, 0
+    i = 0
+    while i < idx and i < len(t):
+        ch = t[i]
+        if ch == '\n':
+            l, c = l + 1, 0
+        elif ch == '\r':
+            if i + 1 < len(t) and t[i + 1] == '\n':
+                c += 1
+            else:
+                l, c = l + 1, 0
+        else:
+            c += 1
+        i += 1
+    return l, c
+
+
+def drop_index(line):
+    """events with text, tags, anchors and line/col of every span, without character indices"""
+    items, tail = split_line(line)
+    out = []
+    for it in items:
+        k, sp = parse_item(it)
+        if sp is None:
+            out.append(it)
+        else:
+            out.append((k, sp[0][1:], sp[1][1:]))
+    tl = tail[:]
+    if tl[0] == 'ERR':
+        m = tl[1].split(',')
+        tl = ['ERR', ','.join(m[1:]), tl[2]]
+    return out, tl
+
+
+@prop('C14', ["implementation-vs-implementation comparison under LF -> CR LF and LF -> CR; equality of events, scalar text, line/col of every span, error message and its line/col",
+              "theorems registered: break primitives agree on LF / CR LF / CR; character tests are break-blind; the whole-scanner relational theorem is not attempted"])
+def c14(tier, rng):
+    res = Result()
+    res.rule = "every CR-free text of the C01 input space, under the two substitutions; non-trivial = contains a line feed and the scanner delivers more than StreamStart/StreamEnd or an error"
+    res.corr_ops = ['evt str on the CRLF variant']
+    texts = [t for t in c01_space(tier, rng) if '\r' not in t]
+    reqs = []
+    for t in texts:
+        reqs += [f'evt str 128 0 {hx(t)}', f'evt str 128 0 {hx(t.replace(chr(10), chr(13) + chr(10)))}',
+                 f'evt str 128 0 {hx(t.replace(chr(10), chr(13)))}', f'evt buf 16 0 {hx(t.replace(chr(10), chr(13) + chr(10)))}']
+    impl = run_impl(reqs)
+    sample = [i for i in range(1, len(reqs), 4) if '\n' in texts[i // 4]][:20000 if tier == 'quick' else 400000]
+    model = dict(zip(sample, run_model([reqs[i] for i in sample])))
+    for n, t in enumerate(texts):
+        o = 4 * n
+        res.evaluations += 1
+        if '\n' in t and (len(split_line(impl[o])[0]) > 4 or ' ; ERR' in impl[o]):
+            res.nt(t)
+        res.count('has-lf' if '\n' in t else 'no-lf')
+        note_dist(res, impl[o], 'evt')
+        ref = drop_index(impl[o])
+        for j, name in ((1, 'CRLF'), (2, 'CR'), (3, 'CRLF/buffered')):
+            if 'PANIC' in impl[o + j]:
+                res.oracle_failures.append({'sig': usig(t), 'what': f'panic on the {name} variant', 'reqs': [reqs[o + j]], 'input': repr(t[:200])})
+            elif drop_index(impl[o + j]) != ref:
+                res.oracle_failures.append({'sig': usig(t), 'what': f'the {name} variant parses differently', 'reqs': [reqs[o], reqs[o + j]],
+                                            'input': repr(t[:200]), 'detail': {'lf': impl[o][:800], name: impl[o + j][:800]}})
+                break
+        if (o + 1) in model and model[o + 1] != impl[o + 1] and 'PANIC' not in impl[o + 1]:
+            diff(res, reqs[o + 1], impl[o + 1], model[o + 1], 'evt on CRLF text')
+        if n % 4001 == 0:
+            res.samples.append({'text': t[:80]})
+    return res
+
+
+def renumber(kinds, off):
+    out = []
+    for k in kinds:
+        f = k.split(':')
+        if f[0] == 'AL':
+            out.append(f'AL:{int(f[1]) + off}')
+        elif f[0] == 'SC' and int(f[2]) > 0:
+            f[2] = str(int(f[2]) + off)
+            out.append(':'.join(f))
+        elif f[0] in ('SQ', 'MP') and int(f[1]) > 0:
+            f[1] = str(int(f[1]) + off)
+            out.append(':'.join(f))
+        else:
+            out.append(k)
+    return out
+
+
+def ev_full(line):
+    items, tail = split_line(line)
+    return [i.rpartition('@')[0] for i in items if i != '/'], tail
+
+
+def n_anchors(kinds):
+    n = 0
+    for k in kinds:
+        f = k.split(':')
+        if f[0] == 'SC':
+            n = max(n, int(f[2]))
+        elif f[0] in ('SQ', 'MP'):
+            n = max(n, int(f[1]))
+    return n
+
+
+@prop('C15', ["expected stream = events(A) ++ events(B) with B's anchor ids shifted; compared on the implementation through the iterator and the push interface",
+              "theorems registered: tags are cleared at document end, load clears anchors per document; the scanner-state reset theorem is not proved"])
+def c15(tier, rng):
+    res = Result()
+    res.rule = "pairs (A, B) of accepted streams from the suite, line soups and soups, A ending in a line break; 3- and 4-tuples; non-trivial = both streams contain a document; distinct by (A, B)"
+    res.corr_ops = ['evt str on A ++ "...\\n" ++ B']
+    pool_src = [r['yaml'] for r in load_suite() if not r['fail']] + line_soups(rng.fork('l'), 3000 if tier == 'quick' else 30000) + soups(rng.fork('s'), 3000 if tier == 'quick' else 30000, 10)
+    pool_src += ['|\n', '- |\n', 'a: |+\n\n', '- >\n', '--- |\n', 'k: |\n  x\n', '&a x\n', '- &b y\n- *b\n', '%TAG !e! tag:e,\n--- !e!x 1\n', '%YAML 1.2\n---\na\n']
+    impl0 = run_impl([f'evt str 128 0 {hx(t)}' for t in pool_src])
+    # a NUL is the Input contract's end-of-input signal: a text with an embedded NUL is not a stream that can be continued
+    pool = [(t, ev_full(l)[0]) for t, l in zip(pool_src, impl0) if l.endswith(' ; DONE') and '\0' not in t]
+    enders = [p for p in pool if p[0].endswith('\n') and '\r' not in p[0][-2:]]
+    pr = rng.fork('pairs')
+    cases = []
+    N = 20000 if tier == 'quick' else 400000
+    for _ in range(N):
+        k = 2 if pr.chance(8, 10) else pr.randint(3, 4)
+        parts = [pr.choice(enders) for _ in range(k - 1)] + [pr.choice(pool)]
+        cases.append(parts)
+    reqs = []
+    for parts in cases:
+        text = '...\n'.join(p[0] for p in parts)
+        reqs += [f'evt str 128 0 {hx(text)}', f'psh buf 1 {hx(text)}']
+    impl = run_impl(reqs)
+    sample = list(range(0, len(reqs), 2))[:8000 if tier == 'quick' else 100000]
+    model = dict(zip(sample, run_model([reqs[i] for i in sample])))
+    for n, parts in enumerate(cases):
+        res.evaluations += 1
+        text = '...\n'.join(p[0] for p in parts)
+        if all(len(p[1]) > 2 for p in parts):
+            res.nt(text)
+        # expected: SS, documents of each part (anchors shifted), SE
+        exp = ['SS']
+        off = 0
+        for t, k in parts:
+            body = k[1:-1]
+            exp += renumber(body, off)
+            off += n_anchors(body)
+        exp.append('SE')
+        res.count(f'parts:{len(parts)}')
+        a, tail = ev_full(impl[2 * n])
+        if tail[0] != 'DONE' or a != exp:
+            sig = usig(text)
+            if is_d12(parts, a, exp, tail):
+                sig = 'C15:contentless-block-scalar-at-end'
+            elif is_d12b(text, tail):
+                sig = 'C15:contentless-block-scalar-then-marker-error'
+            res.oracle_failures.append({'sig': sig, 'what': 'A ++ "...\\n" ++ B does not parse to the documents of A followed by those of B (iterator)',
+                                        'reqs': [reqs[2 * n]], 'input': repr(text[:300]), 'detail': {'got': ' '.join(a)[:800] + ' ; ' + ' '.join(tail)[:200], 'expected': ' '.join(exp)[:800]}})
+        else:
+            # loading interface: anchors are per document, so ids restart; compare modulo anchor ids via kinds
+            b, tail2 = ev_full(impl[2 * n + 1])
+            if tail2[0] != 'DONE' or [x for x in b] != exp:
+                res.oracle_failures.append({'sig': usig(text), 'what': 'push interface differs on A ++ "...\\n" ++ B', 'reqs': [reqs[2 * n + 1]], 'input': repr(text[:300])})
+        if (2 * n) in model and model[2 * n] != impl[2 * n] and 'PANIC' not in impl[2 * n]:
+            diff(res, reqs[2 * n], impl[2 * n], model[2 * n], 'evt')
+        if n % 5003 == 0:
+            res.samples.append({'A': parts[0][0][:60], 'B': parts[-1][0][:60]})
+    return res
+
+
+def is_d12(parts, got, exp, tail):
+    """narrow signature of D12: the only difference is a content-less clip/keep block scalar that was
+    the last thing in a part: alone it reads one line break, before `...` it reads the empty string"""
+    if tail[0] != 'DONE' or len(got) != len(exp):
+        return False
+    ok = False
+    for g, e in zip(got, exp):
+        if g == e:
+            continue
+        fg, fe = g.split(':'), e.split(':')
+        if fg[0] == 'SC' and fe[0] == 'SC' and fg[1] in ('L', 'F') and fg[:4] == fe[:4] and unhx(fe[4]) == '\n' and unhx(fg[4]) == '':
+            ok = True
+            continue
+        return False
+    return ok
+
+
+def is_d12b(text, tail):
+    """narrow signature: error 'wrongly indented line in block scalar' raised at a document marker in
+    column 0 that directly follows a block-scalar header whose lines so far are all blank"""
+    import re
+    if tail[0] != 'ERR' or unhx(tail[2]) != 'wrongly indented line in block scalar':
+        return False
+    idx, line, col = (int(x) for x in tail[1].split(','))
+    if col != 0 or text[idx:idx + 3] not in ('...', '---'):
+        return False
+    before = text[:idx].split('\n')[:-1]
+    while before and before[-1].strip(' ') == '':
+        before.pop()
+    return bool(before) and re.search(r'[|>][0-9+-]{0,2}[ \t]*(#.*)?$', before[-1]) is not None
+
+
+@prop('C17', ["histories are cut at the first call that returns an error (DESIGN §7 C17: peek does not cache errors)",
+              "theorems registered: peek/next laws on the Api model by induction over histories"])
+def c17(tier, rng):
+    res = Result()
+    res.rule = "inputs of the C01 space with at most 10 events: all peek/next histories up to a length bound; longer inputs: random histories; push multi on/off vs iterator; non-trivial = stream with a document or an error; distinct by (text, history)"
+    res.corr_ops = ['api', 'psh 1', 'psh 0']
+    texts = c01_space(tier, rng, 0.5)
+    ev = run_impl([f'evt str 128 0 {hx(t)}' for t in texts])
+    hr = rng.fork('h')
+    small = [(t, l) for t, l in zip(texts, ev) if len(split_line(l)[0]) <= 10 and 'PANIC' not in l]
+    big = [(t, l) for t, l in zip(texts, ev) if len(split_line(l)[0]) > 10 and 'PANIC' not in l]
+    hr2 = rng.fork('pick')
+    nsmall = 150 if tier == 'quick' else 3000
+    L = 8 if tier == 'quick' else 10
+    picked = [hr2.choice(small) for _ in range(nsmall)] + [(r['text'], None) for r in load_regressions() if r.get('prop') == 'C17']
+    picked += [('--- &a x\n--- *a\n', None), ('*unknown', None), ('&a [*a]', None), ('a: b\n--- c\n...\n', None)]
+    cases = []
+    import itertools
+    hists = [''.join(h) for n in range(1, L + 1) for h in itertools.product('pn', repeat=n)]
+    for t, _ in picked:
+        for h in hists:
+            cases.append((t, h))
+    for t, l in big[:3000 if tier == 'quick' else 60000]:
+        n = len(split_line(l)[0])
+        cases.append((t, ''.join(hr.choice('pnn') for _ in range(hr.randint(n, 2 * n + 6)))))
+    reqs = [f'api {hx(t)} {h}' for t, h in cases]
+    impl = run_impl(reqs)
+    evmap = {}
+    need = sorted({t for t, _ in cases})
+    for t, l in zip(need, run_impl([f'evt str 128 0 {hx(t)}' for t in need])):
+        evmap[t] = l
+    msample = list(range(0, len(reqs), 7 if tier == 'quick' else 3))
+    model = dict(zip(msample, run_model([reqs[i] for i in msample])))
+    for n, (t, h) in enumerate(cases):
+        res.evaluations += 1
+        items, tail = split_line(evmap[t])
+        if len(items) > 2 or tail[0] == 'ERR':
+            res.nt(t + '\x00' + h)
+        out = impl[n].split(' ')
+        why = check_history(h, out, items, tail)
+        if why:
+            res.oracle_failures.append({'sig': usig(t + h), 'what': why, 'reqs': [reqs[n], f'evt str 128 0 {hx(t)}'], 'input': repr(t[:200]) + ' history ' + h})
+        if n in model and model[n] != impl[n] and 'PANIC' not in impl[n]:
+            diff(res, reqs[n], impl[n], model[n], 'api history')
+        if n % 20011 == 0:
+            res.samples.append({'text': t[:60], 'history': h, 'results': impl[n][:200]})
+    # push vs pull
+    extra = ['--- &a x\n--- *a\n', '&a x\n---\n*a\n', '- &a x\n...\n- *a\n', '&a [1]\n--- &b [*a]\n--- [*b, *a]\n']
+    ev = ev + run_impl([f'evt str 128 0 {hx(t)}' for t in extra])
+    texts = texts + extra
+    preqs = []
+    for t in texts:
+        preqs += [f'psh str 1 {hx(t)}', f'psh str 0 {hx(t)}']
+    pimpl = run_impl(preqs)
+    pmodel = run_model(preqs[:6000 if tier == 'quick' else 200000])
+    for n, t in enumerate(texts):
+        res.evaluations += 1
+        e = ev[n]
+        if 'PANIC' in e:
+            continue
+        for j, name in ((0, 'load(multi=true)'), (1, 'repeated load(multi=false)')):
+            p = pimpl[2 * n + j]
+            pj = ' '.join(x for x in p.split(' ') if x != '/')
+            if pj != e:
+                sig = usig(t)
+                if cross_doc_alias(t, e, pj):
+                    sig = 'C17:cross-document-alias'
+                res.oracle_failures.append({'sig': sig, 'what': f'{name} does not deliver the iterator\'s events/spans/error', 'reqs': [preqs[2 * n + j], f'evt str 128 0 {hx(t)}'],
+                                            'input': repr(t[:200]), 'detail': {'iterator': e[:600], 'push': p[:600]}})
+                break
+            if j == 1 and ' ; DONE' in p:
+                # one document per call
+                calls = p.rsplit(' ; ', 1)[0].split(' / ')
+                for c in calls[:-1]:
+                    if sum(1 for x in c.split(' ') if x.startswith('DE@')) != 1:
+                        res.oracle_failures.append({'sig': usig(t), 'what': 'a load(multi=false) call did not deliver exactly one document', 'reqs': [preqs[2 * n + 1]], 'input': repr(t[:200])})
+                        break
+        for j in (0, 1):
+            k = 2 * n + j
+            if k < len(pmodel):
+                a, b = pimpl[k], pmodel[k]
+                if ' ; ERR' in a:
+                    a, b = a.rsplit(' ; ', 1)[1], b.rsplit(' ; ', 1)[-1].lstrip('; ')
+                if a != b and 'PANIC' not in a:
+                    diff(res, preqs[k], a, b, 'psh')
+    return res
+
+
+def check_history(h, out, items, tail):
+    """results of a peek/next history against plain iteration `items ; tail`"""
+    pos = 0            # number of events consumed by next
+    ended = False
+    for i, (c, r) in enumerate(zip(h, out)):
+        body = r[2:]
+        if pos < len(items):
+            want = items[pos]
+        elif tail[0] == 'ERR':
+            want = f'E:{tail[1]}:{tail[2]}'
+        else:
+            want = '-'
+        if ended:
+            want = '-'
+        if body != want:
+            return f'call {i} ({"peek" if c == "p" else "next"}) returned {body[:80]} where iteration gives {want[:80]}'
+        if want.startswith('E:'):
+            if i != len(out) - 1:
+                return 'history continued after an error'
+            return None
+        if c == 'n' and want != '-':
+            if items[pos].startswith('SE@'):
+                ended = True
+            pos += 1
+    if len(out) != len(h) and not (out and out[-1][2:].startswith('E:')):
+        return 'history was cut short'
+    return None
+
+
+def cross_doc_alias(t, e, p):
+    """narrow signature of D9: the iterator resolves an alias to an anchor of an earlier document,
+    the push interface reports 'unknown anchor' at that alias"""
+    if ' ; ERR' not in p or ' ; DONE' not in e and ' ; ERR' not in e:
+        return False
+    pt = p.rsplit(' ; ', 1)[1].split(' ')
+    if unhx(pt[2]) != 'while parsing node, found unknown anchor':
+        return False
+    pitems = split_line(p)[0]
+    eitems = split_line(e)[0]
+    k = len(pitems)
+    return eitems[:k] == pitems and k < len(eitems) and eitems[k].startswith('AL:')
+
+
+# ---------------------------------------------------------------------------------------------
+# C07 / C19: loader
+
+def parse_tree_tokens(tokens, i=0):
+    """prefix-notation dump -> nested python value (with spans dropped); returns (node, next index)"""
+    t = tokens[i].partition('@')[0]
+    if t.startswith('Q:'):
+        n = int(t[2:]); items = []; i += 1
+        for _ in range(n):
+            x, i = parse_tree_tokens(tokens, i); items.append(x)
+        return ('Q', items), i
+    if t.startswith('M:'):
+        n = int(t[2:]); items = []; i += 1
+        for _ in range(n):
+            k, i = parse_tree_tokens(tokens, i)
+            v, i = parse_tree_tokens(tokens, i)
+            items.append((k, v))
+        return ('M', items), i
+    return t, i + 1
+
+
+def docs_of(line):
+    """`OK d / d / d` -> list of token lists"""
+    if not line.startswith('OK'):
+        return None
+    body = line[3:]
+    return [d.split(' ') for d in body.split(' / ')] if body else []
+
+
+def denote_events(items, resolve):
+    """Independent denotation (Spec of C07, mirrored by Spec/Denote.lean): events -> list of documents.
+    Anchors are bound when the node is complete; an alias to an unbound anchor is BadValue ('B');
+    a later pair with an equal key replaces the value, keeps the old key object and moves to the back."""
+    docs = []
+    stack = []          # frames: ['Q', items, aid] | ['M', pairs, aid, pending_key | NOKEY]
+    anchors = {}
+    NOKEY = object()
+
+    def complete(node, aid):
+        if aid:
+            anchors[aid] = node
+        if not stack:
+            docs.append(node)
+            return
+        fr = stack[-1]
+        if fr[0] == 'Q':
+            fr[1].append(node)
+        else:
+            if fr[3] is NOKEY:
+                fr[3] = node
+            else:
+                k = fr[3]
+                fr[3] = NOKEY
+                for idx, (k0, _) in enumerate(fr[1]):
+                    if k0 == k:
+                        fr[1].pop(idx)
+                        fr[1].append((k0, node))
+                        break
+                else:
+                    fr[1].append((k, node))
+    cur_doc_open = False
+    for it in items:
+        k = it.rpartition('@')[0]
+        f = k.split(':')
+        if f[0] == 'DS':
+            cur_doc_open = True
+            ndocs = len(docs)
+        elif f[0] == 'DE':
+            if len(docs) == ndocs:
+                docs.append('B')
+            cur_doc_open = False
+        elif f[0] == 'SC':
+            complete(resolve(unhx(f[4]), f[1], f[3]), int(f[2]))
+        elif f[0] == 'AL':
+            complete(anchors.get(int(f[1]), 'B'), 0)
+        elif f[0] == 'SQ':
+            stack.append(['Q', [], int(f[1])])
+        elif f[0] == 'MP':
+            stack.append(['M', [], int(f[1]), NOKEY])
+        elif f[0] in ('SQE', 'MPE'):
+            fr = stack.pop()
+            complete((fr[0], list(fr[1])), fr[2])
+    return docs
+
+
+def freeze(n):
+    if isinstance(n, tuple):
+        if n[0] == 'Q':
+            return ('Q', tuple(freeze(x) for x in n[1]))
+        return ('M', tuple((freeze(k), freeze(v)) for k, v in n[1]))
+    return n
+
+
+@prop('C07', ["the oracle denotes the implementation's own events (pull) into documents independently of the loader and compares with what the loader returned; scalar resolution is taken from the implementation's resolver (res), which C08 checks separately",
+              "float keys are compared through their binary64 bits",
+              "theorem fold_tree is proved for the loader with an explicit no-key marker; see Props/C07.lean for the hypothesis that separates it from the pinned source"])
+def c07(tier, rng):
+    res = Result()
+    res.rule = "every accepted input of the C01 space + alias/duplicate-key/tagged-key seeds; non-trivial = at least one collection or alias; distinct by text"
+    res.corr_ops = ['fld y e (loader model on the real events) vs lod y e', 'lod y e (whole model pipeline)']
+    seeds = ['!!int x: 1\na: b\n', '{!!null no: 1, c: d}\n', 'a: 1\nb: 2\na: 3\n', '&a [1, 2]: x\n*a : y\n', '- &a [*a]\n', '&a {k: *a}\n',
+             '? [a, b]\n: 1\n? [a, b]\n: 2\n', '1: a\n0x1: b\n', '1.0: a\n1: b\n', '~: a\nnull: b\n', '&x a: *x\n*x : &x b\n', 'a: &a b\n*a : c\n--- *a\n',
+             '!!str 1: a\n"1": b\n', '!!float 1: a\n1.0: b\n', '- !!bool yes\n- x\n', '? !!int q\n: v\nw: z\n', '{a: 1, a: 2, b: 3, a: 4}\n', '[&a x, *a, &a y, *a]\n']
+    texts = seeds + c01_space(tier, rng)
+    # the loaders consume the push interface (Parser::load), so that is "the parser" here
+    ev = run_impl([f'psh buf 1 {hx(t)}' for t in texts])
+    keep = [(t, e) for t, e in zip(texts, ev) if 'PANIC' not in e]
+    reqs = []
+    for t, e in keep:
+        reqs += [f'lod y e {hx(t)}']
+    impl = run_impl(reqs)
+    # resolver answers for all scalars that occur (style/tag/text), from the implementation
+    scal = {}
+    for t, e in keep:
+        for it in split_line(e)[0]:
+            f = it.rpartition('@')[0].split(':')
+            if f[0] == 'SC':
+                scal[(f[1], f[3], f[4])] = None
+    keys = sorted(scal)
+    for k, r in zip(keys, run_impl([f'res {k[0]} {k[1]} {k[2]}' for k in keys])):
+        scal[k] = r.split(' ')[0]
+    def resolve(text, style, tag):
+        r = scal[(style, tag, hx(text))]
+        if r == 'BAD':
+            return 'B'
+        if r.startswith('B:'):
+            return 'T' if r == 'B:true' else 'F'
+        return r
+    mreqs = []
+    for (t, e), a in zip(keep, impl):
+        mreqs += [f'fld y e {e}', f'lod y e {hx(t)}']
+    model = run_model(mreqs)
+    for n, ((t, e), a) in enumerate(zip(keep, impl)):
+        res.evaluations += 1
+        items, tail = split_line(e)
+        if any(i.startswith(('SQ:', 'MP:', 'AL:')) for i in items):
+            res.nt(t)
+        res.count('accepted' if tail[0] == 'DONE' else 'rejected')
+        if 'PANIC' in a or 'CRASH' in a:
+            res.oracle_failures.append({'sig': usig(t), 'what': 'loader panicked', 'reqs': [reqs[n]], 'input': repr(t[:200])})
+            continue
+        # a load fails exactly when the parser reports an error (same error)
+        if (tail[0] == 'ERR') != a.startswith('ERR'):
+            res.oracle_failures.append({'sig': usig(t), 'what': 'load fails although the parser reports no error, or vice versa', 'reqs': [reqs[n]], 'input': repr(t[:200])})
+            continue
+        if tail[0] == 'ERR':
+            if a != 'ERR ' + ' '.join(tail[1:]):
+                res.oracle_failures.append({'sig': usig(t), 'what': 'load error differs from the parser error', 'reqs': [reqs[n]], 'input': repr(t[:200])})
+            continue
+        docs = docs_of(a)
+        got = [freeze(parse_tree_tokens(d)[0]) for d in docs] if docs else []
+        want = [freeze(d) for d in denote_events(items, resolve)]
+        if got != want:
+            sig = usig(t)
+            if bad_key_shift(items, resolve):
+                sig = 'C07:badvalue-key-shifts-pairs'
+            res.oracle_failures.append({'sig': sig, 'what': 'loaded documents are not the denotation of the event stream', 'reqs': [reqs[n]],
+                                        'input': repr(t[:200]), 'detail': {'loaded': a[:600], 'denoted': str(want)[:600]}})
+        ma, mb = canon_tree_line(model[2 * n]), canon_tree_line(model[2 * n + 1])
+        if ma != a:
+            diff(res, mreqs[2 * n], a, ma, 'fld: loader model on the real events')
+        if mb != a:
+            diff(res, mreqs[2 * n + 1], a, mb, 'lod: model pipeline')
+        if n % 4001 == 0:
+            res.samples.append({'text': t[:80], 'loaded': a[:200]})
+    return res
+
+
+def bad_key_shift(items, resolve):
+    """narrow signature of D15: some mapping key of the stream denotes BadValue (type/tag mismatch
+    or alias to a still-open anchor)"""
+    # a key denotes BadValue iff, replaying the stream, a node completed in key position is 'B'
+    stack = []
+    anchors = {}
+    hit = False
+
+    def complete(node, aid):
+        nonlocal hit
+        if aid:
+            anchors[aid] = node
+        if stack and stack[-1][0] == 'M':
+            if stack[-1][1] == 0 and node == 'B':
+                hit = True
+            stack[-1][1] ^= 1
+    for it in items:
+        f = it.rpartition('@')[0].split(':')
+        if f[0] == 'SC':
+            complete(resolve(unhx(f[4]), f[1], f[3]), int(f[2]))
+        elif f[0] == 'AL':
+            complete(anchors.get(int(f[1]), 'B'), 0)
+        elif f[0] == 'SQ':
+            stack.append(['Q', 0, int(f[1])])
+        elif f[0] == 'MP':
+            stack.append(['M', 0, int(f[1])])
+        elif f[0] in ('SQE', 'MPE'):
+            fr = stack.pop()
+            complete('X', fr[2])
+    return hit
+
+
+@prop('C19', ["the four node types are compared on the implementation directly (structure, scalar values, error); marked kinds with spans stripped",
+              "lazy load + parse_representation_recursive is compared with the eager load on the implementation",
+              "equality/hash of marked nodes ignoring spans is exercised through mappings keyed by marked nodes (C20 covers the hash stream)"])
+def c19(tier, rng):
+    res = Result()
+    res.rule = "accepted and rejected inputs of the C01 space; 4 node kinds x {eager, lazy, lazy+resolve}; non-trivial = a document with a collection; distinct by text"
+    res.corr_ops = ['lod <kind> <mode> for all 4 kinds and 3 modes']
+    seeds = ['a: [1, x]\n', '- 1\n- 0x2\n', '[~, true, 1.5, "s"]\n', '!!int x\n', '{1: a, 0x1: b}\n', '- - - 1\n', '&a [1]\n', 'k: !!float 1\n', "- '1'\n- \"2\"\n- |\n 3\n"]
+    texts = seeds + c01_space(tier, rng, 0.6)
+    reqs = []
+    for t in texts:
+        h = hx(t)
+        reqs += [f'lod {nk} {m} {h}' for nk in ('y', 'yo', 'm', 'mo') for m in ('e', 'l', 'r')]
+    impl = run_impl(reqs)
+    msample = [i for i in range(len(reqs))][:60000 if tier == 'quick' else 10**9]
+    model = dict(zip(msample, run_model([reqs[i] for i in msample])))
+    W = 12
+    for n, t in enumerate(texts):
+        o = n * W
+        res.evaluations += 1
+        row = impl[o:o + W]
+        if any('PANIC' in x or 'CRASH' in x for x in row):
+            res.oracle_failures.append({'sig': usig(t), 'what': 'a loader panicked', 'reqs': reqs[o:o + W], 'input': repr(t[:200])})
+            continue
+        if row[0].startswith('OK') and ('Q:' in row[0] or 'M:' in row[0]):
+            res.nt(t)
+        res.count('accepted' if row[0].startswith('OK') else 'rejected')
+        # kinds agree per mode
+        for mi, m in enumerate(('e', 'l', 'r')):
+            ref = row[mi]
+            for ki, nk in enumerate(('y', 'yo', 'm', 'mo')):
+                x = row[3 * ki + mi]
+                if strip_spans(x) != ref:
+                    res.oracle_failures.append({'sig': usig(t), 'what': f'node kind {nk} differs from Yaml in mode {m}', 'reqs': [reqs[o + mi], reqs[o + 3 * ki + mi]], 'input': repr(t[:200])})
+            if row[6 + mi] != row[9 + mi]:
+                res.oracle_failures.append({'sig': usig(t), 'what': f'MarkedYaml and MarkedYamlOwned differ (spans) in mode {m}', 'reqs': [reqs[o + 6 + mi], reqs[o + 9 + mi]], 'input': repr(t[:200])})
+        # lazy + resolve == eager
+        if row[0].startswith('OK') and row[2] != row[0]:
+            sig = usig(t)
+            if take_not_restored(row[1], row[2], row[0]):
+                sig = 'C19:parse-representation-drops-nodes'
+            res.oracle_failures.append({'sig': sig, 'what': 'lazy load followed by parse_representation_recursive differs from the eager load', 'reqs': [reqs[o], reqs[o + 2]],
+                                        'input': repr(t[:200]), 'detail': {'eager': row[0][:500], 'lazy+resolve': row[2][:500]}})
+        for j in range(W):
+            if (o + j) in model:
+                a, b = row[j], canon_tree_line(model[o + j])
+                if a != b:
+                    diff(res, reqs[o + j], a, b, 'lod')
+        if n % 4001 == 0:
+            res.samples.append({'text': t[:80], 'eager': row[0][:160]})
+    return res
+
+
+def take_not_restored(lazy, resolved, eager):
+    """narrow signature of D1: the resolved tree equals the eager one except that sequences (at any
+    level) and the nodes below them have become BadValue, or a non-mapping root has become BadValue"""
+    ld, rd, ed = docs_of(lazy), docs_of(resolved), docs_of(eager)
+    if ld is None or rd is None or ed is None or len(rd) != len(ed):
+        return False
+
+    def ok(r, e):
+        if r == 'B':
+            return True            # a sequence / already-resolved node was dropped
+        if isinstance(r, tuple) and isinstance(e, tuple) and r[0] == e[0] == 'M' and len(r[1]) <= len(e[1]):
+            # keys that were sequences collapse to B and may merge; accept when every surviving pair matches some eager pair
+            return all(any(ok(rk, ek) and ok(rv, evv) for ek, evv in e[1]) for rk, rv in r[1])
+        return r == e
+    return all(ok(parse_tree_tokens(r)[0], parse_tree_tokens(e)[0]) for r, e in zip(rd, ed))
